@@ -198,6 +198,35 @@ Definition wf_product (T F ninputs : nat) (p : product) : bool :=
      | Nearest e => Nat.eqb (List.length e) F && forallb (fun k => Nat.ltb k cn) e
      end.
 
+(* ------------------------------------------------------------------ which subset is LOADED (preselect) *)
+(* A data set opened with preselect={'dumps': slice(t0, t0+T'), 'channels': slice(a, a+n)} holds that part of the
+   stream (visdatav4.py 399-403: spw.subrange(start, stop); datasources.py: timestamps[preselect['dumps']]).
+   Its data frequencies are the sub-list of the stream's; K/B corrections are computed ON the loaded channels
+   (calc_delay_correction / calc_bandpass_correction evaluate pointwise at data_freqs), gain-type corrections stay
+   on the cal stream's channels; every correction sensor covers the loaded dumps only. *)
+Definition sub {A} (a n : nat) (l : list A) : list A := firstn n (skipn a l).
+Definition loaded_corr (on_data : bool) (t0 a n : nat) (corr : list (list (list C))) : list (list (list C)) :=
+  map (fun per_input => map (fun g => if on_data then sub a n g else g) (skipn t0 per_input)) corr.
+Definition loaded_raw (on_data : bool) (t0 a n : nat) (r : rawproduct) : rawproduct :=
+  mkRaw (r_kb r) (r_cal r) (loaded_corr on_data t0 a n (r_corr r)).
+
+(* The cal SOLUTIONS a data set holding dumps [a, b) sees (categorical.sensor_to_categorical 716-764): a solution
+   is an event (dump index, payload), in time order; those at or after b are dropped, those before a collapse onto
+   the first loaded dump, and when several events share a dump only the last one is kept. *)
+Fixpoint last_per_dump {A} (evs : list (Z * A)) : list (Z * A) :=
+  match evs with
+  | [] => []
+  | e :: r => match r with
+              | e2 :: _ => if Z.eqb (fst e) (fst e2) then last_per_dump r else e :: last_per_dump r
+              | [] => [e]
+              end
+  end.
+Definition seen {A} (a b : Z) (evs : list (Z * A)) : list (Z * A) :=
+  last_per_dump (map (fun e => (Z.max (fst e - a) 0, snd e)) (filter (fun e => Z.ltb (fst e) b) evs)).
+(* calc_gain_correction 178-204 for one input: time interpolation over the VALID solutions seen; the correction is
+   a number at every dump iff at least one of them is valid *)
+Definition gain_has_valid (a b : Z) (evs : list (Z * bool)) : bool := existsb snd (seen a b evs).
+
 (* ------------------------------------------------------------------ wire *)
 Definition pow2 (k : Z) : positive := Z.to_pos (2 ^ k).
 Definition to_Qc (n k : Z) : Qc := Q2Qc (n # pow2 k).
@@ -272,5 +301,9 @@ Definition wire_13 (x : sx) : sx :=
          of_arr3 I (spec spec_flags fls 0%Z)]
   (* (2 z)  -> (1/z)   reciprocal, for the probe of numpy's reciprocal(0) *)
   | L [I 2; z] => of_C (Cinv (to_C z))
+  (* (3 a b ((dump id) ...)) -> ((relative_dump id) ...)   the solutions seen by a data set holding dumps [a, b) *)
+  | L [I 3; I a; I b; evs] =>
+      L (map (fun e => L [I (fst e); I (snd e)])
+             (seen a b (map (fun e => match e with L [I d; I k] => (d, k) | _ => (0%Z, 0%Z) end) (to_list evs))))
   | _ => sx_err
   end.
